@@ -282,6 +282,29 @@ func (r *symtabRoles) verify(c *Ctx, rule string) {
 				}
 			}
 		})
+		// shadowed names: read from every table of the source's parent chain (a loop that follows .parent)
+		_, fShadowed := l.structField(modPath, "SymbolTable", "shadowedBuiltins")
+		chain := false
+		eachInstr(r.copyStates, func(ins ssa.Instruction) {
+			fa, ok := ins.(*ssa.FieldAddr)
+			if !ok || fa.Field != fShadowed || fShadowed < 0 {
+				return
+			}
+			if _, ok := isFieldAddrOf(fa, modPath, "SymbolTable", fShadowed); !ok {
+				return
+			}
+			// the table it is read from must be a loop-carried value advanced through .parent
+			if phi, ok := fa.X.(*ssa.Phi); ok {
+				for _, e := range phi.Edges {
+					if u, ok := e.(*ssa.UnOp); ok {
+						if _, ok := isFieldAddrOf(u.X, modPath, "SymbolTable", r.fParent); ok {
+							chain = true
+						}
+					}
+				}
+			}
+		})
+		c.Check(rule, "optimCopyBuiltinStates copies shadowed names of the whole scope chain", l.Pos(r.copyStates.Pos()), chain, "walks src and its parents", "only the innermost table's shadowed names reach the evaluator: a builtin re-bound in an enclosing scope is folded as the builtin inside a nested block or closure")
 		c.Check(rule, "optimCopyBuiltinStates copies the source's root set into the destination's root set", l.Pos(r.copyStates.Pos()), readsSrc && writesDst,
 			"ranges over src.disabledBuiltinsMap() and inserts into dest.root().disabledBuiltins",
 			fmt.Sprintf("copy function does not read the source's root set through the getter (%v) or does not write the destination's root set (%v): disabled builtins are lost when the source table is not the root", readsSrc, writesDst))
